@@ -299,6 +299,36 @@ func (s *c19State) roundTrip(h *c19Handle) {
 	}
 }
 
+var c19Atoms = []string{"a", "b1", `"`, `\\`, "'", "=", "<", "3.7", "é", ",", "x-y", "(", "%", "$"}
+
+// drawValue draws either a fixed value or one composed of 1-4 words of 1-3
+// atoms each (quotes, backslashes, punctuation, non-ASCII), joined by single
+// spaces, occasionally with a leading, trailing or doubled space.
+func drawValue(t *kernel.Tape) string {
+	if !t.Bool(1, 3) {
+		return c19Values[t.Choose(len(c19Values))]
+	}
+	nw := 1 + t.Choose(4)
+	var words []string
+	for i := 0; i < nw; i++ {
+		var w string
+		for j, na := 0, 1+t.Choose(3); j < na; j++ {
+			w += c19Atoms[t.Choose(len(c19Atoms))]
+		}
+		words = append(words, w)
+	}
+	v := strings.Join(words, " ")
+	switch t.Choose(12) {
+	case 9:
+		v = " " + v
+	case 10:
+		v += " "
+	case 11:
+		v = strings.Replace(v, " ", "  ", 1)
+	}
+	return v
+}
+
 func (s *c19State) drawKV(t *kernel.Tape, ver bool) (int, string) {
 	if t.Bool(1, 4) {
 		if ver {
@@ -306,7 +336,7 @@ func (s *c19State) drawKV(t *kernel.Tape, ver bool) (int, string) {
 		}
 		return int(c19DepFlags[t.Choose(len(c19DepFlags))]), ""
 	}
-	v := c19Values[t.Choose(len(c19Values))]
+	v := drawValue(t)
 	if ver {
 		return int(c19VerKeys[t.Choose(len(c19VerKeys))]), v
 	}
